@@ -249,13 +249,46 @@ func (dec *Decoder) DiscardUntilByte(untilCh byte) {
 	}
 }
 
+// DiscardLine discards the rest of the current line. On the server side this
+// includes the non-synchronizing literals the line announces: the client
+// sends their octets without waiting for a go-ahead, so they have to be
+// skipped lest they are parsed as commands.
 func (dec *Decoder) DiscardLine() {
 	if dec.crlf {
 		return
 	}
-	var text string
-	dec.Text(&text)
-	dec.CRLF()
+	for {
+		var text string
+		dec.Text(&text)
+		if !dec.CRLF() {
+			return
+		}
+		size, ok := trailingNonSyncLiteral(text)
+		if !ok || dec.side != ConnSideServer {
+			return
+		}
+		if _, err := io.CopyN(io.Discard, dec.r, size); err != nil {
+			return
+		}
+		dec.crlf = false // the line goes on after the literal
+	}
+}
+
+// trailingNonSyncLiteral checks whether a line ends with the header of a
+// non-synchronizing literal ("{size+}").
+func trailingNonSyncLiteral(line string) (size int64, ok bool) {
+	if !strings.HasSuffix(line, "+}") {
+		return 0, false
+	}
+	i := strings.LastIndexByte(line, '{')
+	if i < 0 {
+		return 0, false
+	}
+	size, err := strconv.ParseInt(line[i+1:len(line)-2], 10, 64)
+	if err != nil || size < 0 {
+		return 0, false
+	}
+	return size, true
 }
 
 func (dec *Decoder) DiscardValue() bool {
@@ -398,6 +431,10 @@ func (dec *Decoder) ExpectAString(ptr *string) bool {
 	}
 	if dec.Literal(ptr) {
 		return true
+	}
+	if dec.err != nil {
+		// e.g. a refused literal: nothing that follows belongs to this argument
+		return false
 	}
 	// TODO: accept unquoted resp-specials
 	return dec.ExpectAtom(ptr)
